@@ -415,7 +415,7 @@ func c09Post(a *core.Agg) {
 		site := "unknown"
 		for _, l := range strings.Split(s, "\n") {
 			l = strings.TrimSpace(l)
-			if strings.HasPrefix(l, "/repo/") {
+			if strings.HasPrefix(l, core.RepoDir()+"/") {
 				site = strings.Fields(l)[0]
 				break
 			}
